@@ -249,19 +249,17 @@ def eval_case(h, stream, case_ops, work, tag="shrink"):
     return issues, open(tr_p).read().splitlines(), open(md_p).read().splitlines()
 
 
-def shrink(h, stream, case_ops, work, want_spec, is_spec=lambda k: "spec" in k):
-    """Delta-debug the op list (the reset line is kept) while the failure persists."""
+def shrink(h, stream, case_ops, work, is_bad):
+    """Delta-debug the op list (the reset line is kept) while some issue satisfying `is_bad` persists."""
     def fails(ops):
         issues, _, _ = eval_case(h, stream, ops, work)
-        if want_spec:
-            return any(is_spec(k) for (_, k, *_r) in issues)
-        return any(k != "spec" or is_spec(k) for (_, k, *_r) in issues)
+        return any(is_bad(x) for x in issues)
     head, body = case_ops[:1], case_ops[1:]
     if not fails(head + body):
         return case_ops
     # truncate after the first failing line
     issues, _, _ = eval_case(h, stream, head + body, work)
-    first = min(i for (i, k, *_r) in issues if (is_spec(k) if want_spec else (k != "spec" or is_spec(k))))
+    first = min(x[0] for x in issues if is_bad(x))
     body = body[: max(0, first - 1)]
     if not fails(head + body):
         body = case_ops[1:]
@@ -380,7 +378,8 @@ def check(pid, P, tier, seed, work, replay, t0):
     if P.get("race_streams"):
         hr, hrout = build_harness(work, race=True)
         if hr is None:
-            notes.append("race-detector build of the harness failed; running without -race: " + hrout[-300:])
+            # no silent degradation: without the race detector the data-race clause is not checked at all
+            broken.append(("race-detector build of the harness", hrout[-1500:]))
     race_reports = []
 
     # replay mode
@@ -496,16 +495,29 @@ def check(pid, P, tier, seed, work, replay, t0):
     # 6: verdict
     # classify issues: divergence (impl != model) is new; spec-bad with impl == model is explained by a recorded
     # finding only if the property has open findings (the model carries them, selected by Gen facts).
+    # A spec-only line (implementation = model, spec verdict `bad`) is explained by a recorded finding only when
+    # the finding names this stream and its `verdict_regex` matches the verdict text: a failure for any OTHER
+    # reason on which implementation and model agree (e.g. because the model follows a regenerated fact) is new.
+    def explained_by(stream, verdict):
+        for k in known_open:
+            if stream in (k.get("streams") or []) and re.search(k.get("verdict_regex") or r"$^", verdict):
+                return k["id"]
+        return None
     new_issues = []
     explained = 0
+    explained_by_finding = {}
     for stream, ops, its in all_issues:
         div = [x for x in its if not x[1] == "spec"]
-        if div:
-            new_issues.append((stream, ops, its))
-        elif known_open:
-            explained += 1
+        unexplained = [x for x in its if x[1] == "spec" and explained_by(stream, x[5]) is None]
+        if div or unexplained:
+            # spec-only lines that ARE explained must not steer the search: mark them so
+            marked = [x if not (x[1] == "spec" and explained_by(stream, x[5])) else (x[0], "known", x[2], x[3], x[4], x[5]) for x in its]
+            new_issues.append((stream, ops, marked))
         else:
-            new_issues.append((stream, ops, its))
+            explained += 1
+            for x in its:
+                fid = explained_by(stream, x[5])
+                explained_by_finding[fid] = explained_by_finding.get(fid, 0) + 1
     evaluations = sum(s["cases"] for s in stats_all.values())
     nontrivial = sum(s["distinct_nontrivial"] for s in stats_all.values())
     if race_reports:
@@ -530,17 +542,24 @@ def report_violation(pid, P, tier, seed, t0, work, h, broken, new_issues, stats_
     rp = {"property": pid, "seed": seed, "tier": tier, "broken_obligations": [{"what": w, "detail": d} for w, d in broken]}
     found = False
     if new_issues and h:
-        # prefer a case where the implementation contradicts the specification (a real failing input)
-        # with an open known finding, a spec-bad line on which implementation = model is explained by that finding
-        # (the model carries it): it must not steer the search away from the new deviation
-        has_open = any(k.get("status") == "known" and pid in k.get("properties", [k.get("property")])
-                       for k in load_json(os.path.join(VERIF, "known_findings.json"), {"findings": []})["findings"])
-        is_spec = (lambda k: "spec" in k and k != "spec") if has_open else (lambda k: "spec" in k)
-        spec_cases = [(s, o, i) for (s, o, i) in new_issues if any(is_spec(x[1]) for x in i)]
+        # prefer a case where the implementation contradicts the specification (a real failing input) for a reason
+        # no recorded finding explains
+        known_open = [k for k in load_json(os.path.join(VERIF, "known_findings.json"), {"findings": []})["findings"]
+                      if k.get("status") == "known" and pid in k.get("properties", [k.get("property")])]
+
+        def explained(stream, verdict):
+            return any(stream in (k.get("streams") or []) and re.search(k.get("verdict_regex") or r"$^", verdict) for k in known_open)
+
+        def mk_preds(stream):
+            new_spec = lambda x: "spec" in x[1] and not (x[1] == "spec" and explained(stream, x[5]))
+            any_new = lambda x: x[1] not in ("spec", "known") or (x[1] == "spec" and not explained(stream, x[5]))
+            return new_spec, any_new
+        spec_cases = [(s, o, i) for (s, o, i) in new_issues if any(mk_preds(s)[0](x) for x in i)]
         pick = min(spec_cases or new_issues, key=lambda t: len(t[1]))
         stream, ops, its = pick
         want_spec = bool(spec_cases)
-        small = shrink(h, stream, ops, work, want_spec, is_spec)
+        new_spec, any_new = mk_preds(stream)
+        small = shrink(h, stream, ops, work, new_spec if want_spec else any_new)
         issues, tr, md = eval_case(h, stream, small, work, "final")
         if not issues:
             small = ops
@@ -552,8 +571,7 @@ def report_violation(pid, P, tier, seed, t0, work, h, broken, new_issues, stats_
             tr = ["%s\t%s" % (x[2], x[3]) for x in issues]
             md = ["%s\t%s" % (x[4], x[5]) for x in issues]
             rp["recorded_not_reexecuted"] = True
-        if has_open:
-            issues = [x for x in issues if x[1] != "spec"] or issues
+        issues = [x for x in issues if (new_spec if want_spec else any_new)(x)] or issues
         rp.update({"stream": stream, "ops": small, "impl_trace": tr, "model_trace": md,
                    "first_divergence": ({"line": issues[0][0], "kind": issues[0][1], "op": issues[0][2], "impl": issues[0][3], "model": issues[0][4], "spec_verdict": issues[0][5]} if issues else None),
                    "kind": "property-fails-on-implementation" if want_spec else "correspondence-broken",
